@@ -84,7 +84,7 @@ Proof.
   unfold generic_x86. destruct (eval_cfa_rule (x86_getreg rg) (r_cfa rw)); [|exact I].
   match goal with |- context[match ?o with Some _ => _ | None => CbErrV rg end] => destruct o end; [|exact I].
   destruct ((n =? sp rg) && (n0 =? ip rg)); [exact I|].
-  destruct (negb first && (n <? sp rg)); exact I.
+  destruct (negb first && (n <=? sp rg)); exact I.
 Qed.
 
 Lemma row_step_x86_ok rw first rg m :
